@@ -29,6 +29,8 @@ pub struct Mon {
     pub live: u32,
     pub max_live: u32,
     pub completed: u32,
+    /// bit k set: call number k has completed
+    pub completed_mask: u8,
     pub dropped_unfinished: u32,
     pub polls: u32,
     /// calls that hit an instance on which readiness had not been observed
@@ -42,12 +44,20 @@ pub struct Mon {
     pub call_times: [core::time::Duration; 4],
     /// listener events seen
     pub events: u32,
+    /// the script of the inner service (kept here, not inside `Inner`, so that the service
+    /// value captured by the layers' call futures stays a few bytes: CBMC's cost of re-polling
+    /// a boxed future grows with the size of its state)
+    pub script: Script,
+    /// completion instant of call k (deterministic-latency scripts)
+    pub ready_at: [Option<core::time::Duration>; 4],
 }
 pub static mut MON: Mon = Mon {
     magic: [0x494e4e45525f4d4f, 0x4e49544f525f5356],
-    calls: 0, last_req: 0, live: 0, max_live: 0, completed: 0, dropped_unfinished: 0, polls: 0,
+    calls: 0, last_req: 0, live: 0, max_live: 0, completed: 0, completed_mask: 0, dropped_unfinished: 0, polls: 0,
     unready_calls: 0, ready_polls: 0, clones: 0, permits_at_entry: 0, min_permits_while_live: 99,
     call_times: [core::time::Duration::ZERO; 4], events: 0,
+    script: Script { outcomes: [Ok(0x5c21_9701); 4], never: false, latency: None, lats: [core::time::Duration::ZERO; 4], use_lats: false, never_mask: 0, immediate: false, ready: 0 },
+    ready_at: [None; 4],
 };
 pub fn mon() -> &'static mut Mon {
     unsafe { &mut *core::ptr::addr_of_mut!(MON) }
@@ -69,6 +79,15 @@ pub struct Script {
     pub outcomes: [Result<u32, u32>; 4],
     /// the inner future never completes
     pub never: bool,
+    /// Some(l): the inner future completes at the first poll at or after call time + l
+    /// (deterministic latency); None: see `immediate`
+    pub latency: Option<core::time::Duration>,
+    /// per-call latencies, used when `use_lats` (call k completes at the first poll at or
+    /// after its call time + lats[k])
+    pub lats: [core::time::Duration; 4],
+    pub use_lats: bool,
+    /// bit k set: the future of call number k never completes
+    pub never_mask: u8,
     /// the inner future completes at its first poll (otherwise: at a poll of the solver's choice)
     pub immediate: bool,
     /// readiness answers: 0 = Ready(Ok), 1 = Pending, 2 = Ready(Err)
@@ -78,24 +97,23 @@ pub struct Script {
 /// Monitored inner service.  `Clone` yields an instance that has NOT observed
 /// readiness (as tower::Buffer / ConcurrencyLimit behave).
 pub struct Inner {
-    pub script: Script,
     pub ready_seen: bool,
 }
 impl Inner {
     pub fn new(script: Script) -> Self {
-        Inner { script, ready_seen: false }
+        mon().script = script;
+        Inner { ready_seen: false }
     }
 }
 impl Clone for Inner {
     fn clone(&self) -> Self {
         mon().clones += 1;
-        Inner { script: self.script, ready_seen: false }
+        Inner { ready_seen: false }
     }
 }
+/// The inner call's future: two bytes; everything else about call `idx` lives in `Mon`.
 pub struct InnerFut {
-    outcome: Result<u32, u32>,
-    never: bool,
-    immediate: bool,
+    idx: u8,
     done: bool,
 }
 impl Future for InnerFut {
@@ -108,13 +126,21 @@ impl Future for InnerFut {
         if held < m.min_permits_while_live {
             m.min_permits_while_live = held;
         }
-        if me.never || (!me.immediate && tokio::model::choose()) {
+        let i = me.idx as usize;
+        let sc = &m.script;
+        let never = sc.never || (sc.never_mask >> i) & 1 == 1;
+        if let Some(t) = m.ready_at[i] {
+            if never || tokio::model::now() < t {
+                return Poll::Pending;
+            }
+        } else if never || (!sc.immediate && tokio::model::choose()) {
             return Poll::Pending;
         }
         me.done = true;
         m.live -= 1;
         m.completed += 1;
-        Poll::Ready(me.outcome.map_err(InnerErr))
+        m.completed_mask |= 1 << me.idx;
+        Poll::Ready(m.script.outcomes[i].map_err(InnerErr))
     }
 }
 impl Drop for InnerFut {
@@ -132,7 +158,7 @@ impl tower::Service<u32> for Inner {
     type Future = InnerFut;
     fn poll_ready(&mut self, _cx: &mut Context<'_>) -> Poll<Result<(), InnerErr>> {
         mon().ready_polls += 1;
-        match self.script.ready {
+        match mon().script.ready {
             0 => {
                 self.ready_seen = true;
                 Poll::Ready(Ok(()))
@@ -143,6 +169,7 @@ impl tower::Service<u32> for Inner {
     }
     fn call(&mut self, req: u32) -> InnerFut {
         let m = mon();
+        let script = m.script;
         let idx = if (m.calls as usize) < 4 { m.calls as usize } else { 3 };
         if idx < 4 {
             m.call_times[idx] = tokio::model::now();
@@ -162,7 +189,8 @@ impl tower::Service<u32> for Inner {
         if held < m.min_permits_while_live {
             m.min_permits_while_live = held;
         }
-        InnerFut { outcome: self.script.outcomes[idx], never: self.script.never, immediate: self.script.immediate, done: false }
+        m.ready_at[idx] = if script.use_lats { Some(tokio::model::now() + script.lats[idx]) } else { script.latency.map(|l| tokio::model::now() + l) };
+        InnerFut { idx: idx as u8, done: false }
     }
 }
 
@@ -171,5 +199,5 @@ pub fn any_outcome() -> Result<u32, u32> {
     if kani::any() { Ok(v) } else { Err(v) }
 }
 pub fn any_script() -> Script {
-    Script { outcomes: [any_outcome(), any_outcome(), any_outcome(), any_outcome()], never: kani::any(), immediate: false, ready: 0 }
+    Script { outcomes: [any_outcome(), any_outcome(), any_outcome(), any_outcome()], never: kani::any(), latency: None, lats: [core::time::Duration::ZERO; 4], use_lats: false, never_mask: 0, immediate: false, ready: 0 }
 }
